@@ -33,6 +33,7 @@ func init() {
 			ruleMemoListsAreCopied(c, "R9")
 			ruleConstructorsOwnTheirLists(c, "R10")
 			ruleEntryConditionBelongsToTheGroup(c, "R11")
+			ruleCallersSlicesAreNotRetained(c, "R12", "")
 		},
 	})
 }
